@@ -108,6 +108,13 @@ _RE_COV = re.compile(r"^<(\w+) line \d+, col \d+ to line \d+, col \d+ of module 
 _RE_DEPTH = re.compile(r"^The depth of the complete state graph search is (\d+)")
 
 
+def _compact(t):
+    """Normalise a re-joined multi-line tuple print to the single-line form `<<"A", 1>>`."""
+    t = re.sub(r'^<<\s+', '<<', t)
+    t = re.sub(r'\s+>>$', '>>', t)
+    return t
+
+
 def java_cmd(xmx="6g", xss=None, deque=False, extra_props=()):
     cmd = ["java", "-XX:+UseParallelGC", f"-Xmx{xmx}"]
     if xss:
@@ -152,7 +159,18 @@ def tlc(tla, cfg, name, workers=8, timeout=900, env_extra=None, simulate=None,
     r = TlcResult()
     r.wall = time.time() - t0
     r.output = p.stdout
+    pending = None      # a PrintT value that TLC's pretty-printer wrapped over several lines
     for line in p.stdout.splitlines():
+        if pending is not None:
+            pending += " " + line.strip()
+            if pending.count("<<") <= pending.count(">>"):
+                if keep_prints:
+                    r.prints.append(_compact(pending))
+                pending = None
+            continue
+        if line.startswith("<<") and line.count("<<") > line.count(">>"):
+            pending = line.strip()
+            continue
         m = _RE_STATES.match(line)
         if m:
             r.generated, r.distinct = int(m.group(1)), int(m.group(2))
@@ -240,7 +258,7 @@ def validate_trace(trace_tla, cfg, trace_file, name, timeout=900, xmx="4g", env_
     return consumed, rejects, r
 
 
-def validate_traces_parallel(trace_tla, cfg, files, name, procs=6, timeout=1800, env_extra=None):
+def validate_traces_parallel(trace_tla, cfg, files, name, procs=6, timeout=600, env_extra=None):
     """Validate many trace files with several TLC processes. Returns list of
     (file, consumed, rejects); DRIFT lines are collected in LAST_DRIFTS as (file, [args])."""
     global LAST_DRIFTS
